@@ -577,3 +577,28 @@ Section Scan.
     rewrite Heach by lia. apply Hscan; lia.
   Qed.
 End Scan.
+
+(* ---- projections of the states the notification callbacks produce ---- *)
+Section Proj.
+  Variables (k : nkind) (a : api) (fin : bool) (ai p : nat) (s : NS).
+  Lemma nf_places : ns_places (notified k a fin s) = ns_places s. Proof. destruct fin; reflexivity. Qed.
+  Lemma nf_trans : ns_trans (notified k a fin s) = ns_trans s. Proof. destruct fin; reflexivity. Qed.
+  Lemma nf_cbs : ns_cbs (notified k a fin s) = ns_cbs s. Proof. destruct fin; reflexivity. Qed.
+  Lemma nf_place_dict : ns_place_dict (notified k a fin s) = ns_place_dict s. Proof. destruct fin; reflexivity. Qed.
+  Lemma nf_apis : ns_apis (notified k a fin s) = ns_apis s. Proof. destruct fin; reflexivity. Qed.
+  Lemma nf_start_place : ns_start_place (notified k a fin s) = ns_start_place s. Proof. destruct fin; reflexivity. Qed.
+  Lemma nf_final_place : ns_final_place (notified k a fin s) = ns_final_place s. Proof. destruct fin; reflexivity. Qed.
+  Lemma nf_fresh : ns_fresh (notified k a fin s) = ns_fresh s. Proof. destruct fin; reflexivity. Qed.
+  Lemma nf_test_ids : ns_test_ids (notified k a fin s) = ns_test_ids s. Proof. destruct fin; reflexivity. Qed.
+  Lemma nf_awaited : ns_awaited (notified k a fin s) = ns_awaited s. Proof. destruct fin; reflexivity. Qed.
+  Lemma nf_counters : ns_counters (notified k a fin s) = ns_counters s. Proof. destruct fin; reflexivity. Qed.
+  Lemma nf_tid : ns_tid (notified k a fin s) = ns_tid s. Proof. destruct fin; reflexivity. Qed.
+  Lemma nf_sid : ns_sid (notified k a fin s) = ns_sid s. Proof. destruct fin; reflexivity. Qed.
+  Lemma nf_ls : ns_ls (notified k a fin s) = ns_ls s. Proof. destruct fin; reflexivity. Qed.
+  Lemma nf_obs : ns_obs (notified k a fin s) = ns_obs s. Proof. destruct fin; reflexivity. Qed.
+  Lemma nf_q : ns_q (notified k a fin s) = ns_q s. Proof. destruct fin; reflexivity. Qed.
+  Lemma nf_running : ns_running (notified k a fin s) = if fin then false else ns_running s. Proof. destruct fin; reflexivity. Qed.
+  Lemma nf_log : ns_log (notified k a fin s) = ENotif 0 (notif_of s k a) (ns_running s) :: ns_log s. Proof. destruct fin; reflexivity. Qed.
+  Lemma nf_nss : ns_nss (notified k a fin s) = match k with SS => S (ns_nss s) | _ => ns_nss s end. Proof. destruct fin; reflexivity. Qed.
+  Lemma nf_pending : ns_pending (notified k a fin s) = pend_after k (a_uuid a) (ns_pending s). Proof. destruct fin; reflexivity. Qed.
+End Proj.
